@@ -46,8 +46,11 @@ C07_DOCS = {
     'ver25': 'ver:"2.5" a:1\nx\n"s"\n',
     'ver300': 'ver:"3.0.0"\nx\n[1]\nNA\n',
     'refs': 'ver:"3.0"\nr,s\n@e "",""\n@f "x",`u`\n@g,``\n',
+    'old': 'ver:"3.0" since:0987-06-05\nd,t,l\n0079-08-24,0099-12-31T23:59:59Z UTC,[0001-01-01]\n0999-12-31,1000-01-01T00:00:00Z UTC,\n',
+    'verq': 'ver:"3.0 \\"site\\\\build\\"" a:"x"\nc\n<<ver:"3.0-rc\\"1\\""\nk\n1\n>>\n',
     'fold': 'ver:"2.0"\nt\n2016-10-30T02:30:00+02:00 Berlin\n2016-10-30T02:30:00+01:00 Berlin\n2021-01-15T08:00:00-03:30 St_Johns\n',
 }
+SINGLE_TOO = ('two3', 'crlf3', 'basic2')       # documents also parsed through the single=True entry point
 FILTER_DOCS = {
     'f_and': 'site and equip', 'f_or': 'not ahu or (temp and sensor)', 'f_path': 'siteRef->geoCity == "Chi\\"ca$go"'.replace('$', '\\$'),
     'f_qty': 'curVal >= 75.5kW', 'f_uri': 'x == `http://a/b`', 'f_ref': 'r != @abc-1 "Dis"', 'f_date': 'd == 2020-02-29', 'f_time': 'h < 12:30:00',
@@ -64,6 +67,8 @@ SCALAR_DOCS = {
     'xstr': ('3.0', 'Span("2020-01")'), 'hex': ('3.0', 'hex("dead01")'), 'b64': ('3.0', 'b64("3q2+7w==")'),
     'list': ('3.0', '[1,[N,"x"],{a:1},]'), 'dict': ('3.0', '{a:1 b:"c" d}'), 'bin': ('2.0', 'Bin(text/plain)'),
     'kw': ('3.0', 'NA'), 'inf': ('2.0', '-INF'),
+    # the ends of the calendar: conversions to the named zone leave datetime's range
+    'dtmin': ('3.0', '0001-01-01T00:00:00+10:00 Sydney'), 'dtmax': ('2.0', '9999-12-31T23:59:59Z Tokyo'),
 }
 
 
@@ -123,6 +128,67 @@ for _n in range(1, 11):
 def _init_safe():
     global _SAFE_RE
     _SAFE_RE = _re_mod.compile(SAFE_SOURCE)
+
+
+
+# ---- C12: every token of an accepted filter is a well-formed Haystack token ---------------------------------
+_TAG_FIRST, _TAG_REST = [[97, 122]], [[48, 57], [65, 90], [97, 122], [95, 95]]
+_REF_CHARS = [[48, 57], [65, 90], [97, 122], [95, 95], [58, 58], [45, 46], [126, 126]]
+_XTYPE_FIRST = _TAG_REST          # hszinc's own hex(...) and b64(...) are lower case: any of [A-Za-z0-9_]
+
+
+def _chars(s):
+    return list(s.c) if isinstance(s, SymStr) else [ord(x) for x in s]
+
+
+def _in(ch, ranges):
+    if isinstance(ch, int):
+        return any(lo <= ch <= hi for lo, hi in ranges)
+    return z3.Or(*[z3.And(ch >= lo, ch <= hi) for lo, hi in ranges])
+
+
+def _wf(s, first, rest, allow_empty=False):
+    cs = _chars(s)
+    if not cs:
+        return allow_empty
+    return tw.b_and(_in(cs[0], first), *[_in(c, rest) for c in cs[1:]])
+
+
+def filter_tokens_wellformed(hz, node):
+    """conjunction (bool or z3 term): tag names [a-z][A-Za-z0-9_]*, reference names [A-Za-z0-9_:.~-]*, XStr type names starting
+    with an upper-case letter, dict tag names - over every node and literal of a filter AST"""
+    D = sys.modules['hszinc.datatypes']
+    FA = sys.modules['hszinc.filter_ast']
+    out = [True]
+
+    def lit(v):
+        if isinstance(v, D.Ref):
+            out.append(_wf(v.name, _REF_CHARS, _REF_CHARS, True))
+        elif isinstance(v, D.XStr):
+            out.append(_wf(v.encoding, _XTYPE_FIRST, _TAG_REST))
+        elif isinstance(v, list):
+            for x in v:
+                lit(x)
+        elif isinstance(v, dict) or type(v).__name__ in ('SortableDict', 'MetadataObject'):
+            for k in list(v.keys()):
+                out.append(_wf(k, _TAG_FIRST, _TAG_REST))
+                lit(v[k])
+
+    def walk(n):
+        if isinstance(n, FA.FilterAST):
+            walk(n._head)
+        elif isinstance(n, FA.FilterPath):
+            for name in n.path:
+                out.append(_wf(name, _TAG_FIRST, _TAG_REST))
+        elif isinstance(n, FA.FilterBinary):
+            walk(n.left)
+            walk(n.right)
+        elif isinstance(n, FA.FilterUnary):
+            walk(n.right)
+        else:
+            lit(n)
+    walk(node)
+    return tw.b_and(*out)
 
 
 def within(exc, chars_of):
@@ -213,6 +279,12 @@ def run_doc(hz, ref, name, text, job, ex_factory):
                             return ('ok',)
                         return ('cex', 'an invalid filter raised %s instead of a parse error' % type(e).__name__, model())
                     stats['reached'] += 1
+                    # "a token that is not a valid filter is rejected": every name / reference / type name of an accepted filter is well formed
+                    wf = filter_tokens_wellformed(hz, ast_)
+                    if wf is False or (wf is not True and ex.check(z3.Not(to_z3(wf))) == z3.sat):
+                        if wf is not False:
+                            ex.add(z3.Not(to_z3(wf)))
+                        return ('cex', 'a filter holding an ill-formed token (tag name, reference name or type name) is accepted', model())
                     # run the real compile step with the exec-ing wrapper replaced by a recorder: what would be exec'd?
                     rec = {}
 
@@ -264,6 +336,17 @@ def run_doc(hz, ref, name, text, job, ex_factory):
                 except Exception as e:
                     H = ('exc', e)
                 stats['reached'] += 1
+                if prop in ('C09', 'C03') and not scalar and not job.get('json') and name in SINGLE_TOO:
+                    # the default entry point parse(text) (single=True) must take the same decision as single=False: raise when any
+                    # grid of the document is malformed, else return the first grid
+                    try:
+                        with contextlib.redirect_stdout(io.StringIO()):
+                            S = ('ok', hz.parse(t, mode=hz.MODE_ZINC))
+                    except Exception as e:
+                        S = ('exc', e)
+                    if S[0] != H[0]:
+                        return ('cex', 'parse(text) and parse(text, single=False) disagree: %s vs %s' % (
+                            'raises ' + type(S[1]).__name__ if S[0] == 'exc' else 'returns a grid', 'raises ' + type(H[1]).__name__ if H[0] == 'exc' else 'returns grids'), model())
                 if H[0] == 'exc':
                     e = H[1]
                     if prop == 'C07':
@@ -417,6 +500,15 @@ def replay(hz, job, c):
         from . import c12audit
         probs = c12audit.audit_run(hz, [t])
         return ('filter %r: %s' % probs[0]) if probs else None
+    if prop in ('C09', 'C03') and not scalar and not job.get('json') and c['doc'] in SINGLE_TOO:
+        try:
+            with contextlib.redirect_stdout(io.StringIO()):
+                S = ('ok', hz.parse(t, mode=hz.MODE_ZINC))
+        except Exception as e:
+            S = ('exc', e)
+        if S[0] != H[0]:
+            return 'parse(%r) %s but parse(..., single=False) %s' % (t, 'raises ' + type(S[1]).__name__ if S[0] == 'exc' else 'returns a grid',
+                                                                      'raises ' + type(H[1]).__name__ if H[0] == 'exc' else 'returns grids')
     if prop == 'C07':
         if H[0] == 'exc':
             return None
@@ -549,6 +641,8 @@ def json_forms(hz):
     v = copy.deepcopy(base); v['rows'] = [{'a': ['n:1', 's:x', ['m:']], 'b': {'x': 'n:2', 'g': copy.deepcopy(nested)}}, {'a': copy.deepcopy(nested)}]; variants['nested3'] = v
     v = copy.deepcopy(base); v['meta']['ver'] = '2.0'; v['rows'] = [{'a': 'x:', 'b': '-:'}]; variants['remove2'] = v
     v = copy.deepcopy(base); v['meta']['g'] = copy.deepcopy(nested); v['cols'][0]['lst'] = ['n:1']; variants['meta_nested'] = v
+    # raw JSON numbers and booleans that are equal and hash alike in Python (1/true, 0/false, 1.0) side by side, both orders
+    v = copy.deepcopy(base); v['rows'] = [{'a': 1, 'b': True}, {'a': 0, 'b': False}, {'a': 1.0, 'b': True}, {'a': True, 'b': 1}, {'a': False, 'b': 0.0}]; variants['raw_mix'] = v
     fails = []
     n = 0
     for name, tree in variants.items():
